@@ -271,8 +271,14 @@ def run_ehep(ctx, p):
 def gen_fan(which):
     def g(rng, i, tier):
         st = RC.gen_state(rng)
+        side = int(rng.integers(2))
+        if which == "GenEOS":
+            # few cases (each probe costs ~18 solves of seconds): the patterns with a fan and the probed side are
+            # enumerated, the two gammas unequal - R-C-R left, R-C-R right, R-C-S, S-C-R, ...
+            want, side = [("RCR", 0), ("RCR", 1), ("RCS", 0), ("SCR", 0)][i % 4]
+            st = RC.gen_state_with_pattern(rng, want) or st
         xd0, t = RC.gen_frame(rng, st)
-        return dict(which=which, st=st, xd0=xd0, t=t, f=uni(rng, 0.15, 0.85), side=int(rng.integers(2)))
+        return dict(which=which, st=st, xd0=xd0, t=t, f=uni(rng, 0.15, 0.85), side=side)
     return g
 
 
@@ -302,7 +308,8 @@ def run_fan(ctx, p):
             raise Skip("fan_too_narrow_for_stencil")
     # time stencil: the fan moves; keep x0 inside it
     xi = (x0 - xd0) / t0
-    ht = min(2e-2 * t0, 0.4 * t0 * min(abs(xi - vh), abs(vt - xi)) / (abs(xi) + 1e-300)) if not gen else 0.05 * t0
+    # (x0 must stay inside the fan at all nine time levels: its similarity coordinate moves by xi * dt/t)
+    ht = min(0.05 * t0 if gen else 2e-2 * t0, 0.4 * t0 * min(abs(xi - vh), abs(vt - xi)) / (abs(xi) + 1e-300))
     s = RC.make_solver(ctx, which, st, xd0, a, b)
     fields = ["density", "velocity", "pressure", "specific_internal_energy"]
     R, T, labels = stencil(ctx, s, x0, t0, hx, ht, fields)
@@ -434,7 +441,7 @@ UNITS = [
     Unit("closed", gen_closed, run_closed, quick=23 * 24, thorough=23 * 240, min_nontrivial=1500),
     Unit("ehep", gen_ehep, run_ehep, quick=100, thorough=1000, min_nontrivial=100),
     Unit("fan.igeos", gen_fan("IGEOS"), run_fan, quick=240, thorough=3000, min_nontrivial=150),
-    Unit("fan.geneos", gen_fan("GenEOS"), run_fan, quick=6, thorough=48, min_nontrivial=1),
+    Unit("fan.geneos", gen_fan("GenEOS"), run_fan, quick=8, thorough=48, min_nontrivial=1),
     Unit("sedov", gen_sedov, run_sedov, quick=12, thorough=120, min_nontrivial=12),
     Unit("guderley", gen_gud, run_gud, quick=48, thorough=480, min_nontrivial=40),
 ]
